@@ -54,7 +54,11 @@ def run(tier):
         K = pt.constants(sc)
         pt.CONSTS = K
         tables = pt.gen_tables(t["tables"], lib.seed(), K)
-        multi = [x for x in tables if len({a["model"] for a in x["atoms"]}) > 1][:t["split"]]
+        multi = [x for x in tables if len({a["model"] for a in x["atoms"]}) > 1]
+        # the splitter decides with can_write_pdb whether a table has to be fitted first: tables that end exactly
+        # at the serial limit go through it whatever their position in the list
+        atlimit = [x for x in multi if max(a["serial"] for a in x["atoms"]) == K["serial_max"]]
+        multi = atlimit + [x for x in multi if x not in atlimit][:max(0, t["split"] - len(atlimit))]
         cases = _cases(tables, pt.PATHS, lib.seed()) + _cases(multi, pt.SPLITS, lib.seed())
         texts = lines = 0
         samples = []
